@@ -79,6 +79,19 @@ func run(c hx.Config) error {
 						emit(s, nv, "corruptN")
 					}
 				}
+				// an exact-optional field given explicitly as nil
+				if mv, ok := v.(map[string]any); ok && s.Kind == "object" {
+					for i, f := range s.Fields {
+						if in := s.Members[i].Z.Internals(); in.ExactOptional {
+							c := map[string]any{}
+							for a, b := range mv {
+								c[a] = b
+							}
+							c[f] = nil
+							emit(s, c, "explicit-nil")
+						}
+					}
+				}
 				// a pointer to the valid instance
 				switch t := v.(type) {
 				case []any:
